@@ -158,9 +158,9 @@ func Scopes(quick bool) []c01.Scope {
 		swap := c.Choose(2, "priorities: A<B | B<A")
 		b := fw.Pick(c, BANPs[:2], "BANP")
 		w := Base()
-		pa, pb := 3, 11
+		pa, pb := 0, 1000 // both ends of the valid priority range
 		if swap == 1 {
-			pa, pb = 11, 3
+			pa, pb = 1000, 0
 		}
 		deny := wm.ARule{Action: "Deny", Peers: []wm.APeer{{Namespaces: all}}, Ports: PortAlpha[2]}
 		w.ANPs = []wm.ANP{
